@@ -21,7 +21,9 @@ import ast
 
 from .. import rx, blockproto
 from ..domains import AbsStr
-from ..interp import Interp, Oracle, RxVal
+from ..interp import Interp, Oracle, RxVal, AbstractValue, Unknown, Raised
+from ..affine import Aff
+from ..domains import Cond
 from ..model import AnalysisError, loc
 from ..spec import blockstart
 
@@ -149,9 +151,100 @@ def _short_trace(trace):
     return out[:8]
 
 
+
+class IndentedLine(AbstractValue):
+    """A tab-free line known by its number of leading spaces (concrete, enumerated) and otherwise abstract."""
+
+    def __init__(self, indent):
+        self.indent = indent
+        self.prov = ('indented-line', indent)
+
+    def abs_len(self, interp):
+        return Aff({'L': 1}, self.indent)
+
+    def abs_method(self, interp, name, args, kwargs):
+        if name == 'lstrip' and (not args or args[0] in (' ', ' \t')):
+            return Rest()
+        if name in ('startswith',):
+            if args and isinstance(args[0], str) and args[0] and args[0][0] != ' ':
+                return self.indent == 0 and Cond(('rest-startswith', args[0]))
+            return Cond(('line-test', name, _freeze_args(args)))
+        if name == 'replace':
+            return self
+        return Unknown('line.' + name)
+
+    def abs_getattr(self, interp, name):
+        from ..domains import _AbsBound
+        return _AbsBound(self, name)
+
+
+class Rest(AbstractValue):
+    """The line after its leading spaces (first character is not a space)."""
+    prov = ('rest',)
+
+    def abs_len(self, interp):
+        return Aff({'L': 1}, 0)
+
+    def abs_method(self, interp, name, args, kwargs):
+        if name == 'startswith':
+            return Cond(('rest-startswith', args[0] if args else None))
+        return Unknown('rest.' + name)
+
+    def abs_getattr(self, interp, name):
+        from ..domains import _AbsBound
+        return _AbsBound(self, name)
+
+    def abs_getitem(self, interp, idx):
+        return Unknown('rest[]')
+
+
+def _freeze_args(args):
+    return tuple(a if isinstance(a, (str, int)) else repr(a) for a in args)
+
+
+def rule_scanner_indent(ctx, rep):
+    """Hand-written block starts honour the 'up to three spaces of indentation' rule: decision table over
+    the number of leading spaces (0..6) of a tab-free line."""
+    model = ctx.model
+    rule = 'R-SCANNER-INDENT'
+    rep.rule(rule, 'Quote.start / HtmlBlock.start accept at most three leading spaces')
+    from ..interp import enumerate_paths
+    for short, must in (('block_token.Quote', ('rest-startswith', '>')), ('block_token.HtmlBlock', None)):
+        cls = model.cls(short)
+        st = cls.lookup('start')[1]
+        rep.instance(rule)
+        for n in range(0, 7):
+            def run_(oracle, n=n):
+                it = Interp(model, loop_bound=1)
+                it.reset_run(oracle)
+                it.intrinsics['rx.match'] = lambda interp, a, k: Cond(('rx', a[0].pattern[:20]))
+                try:
+                    r = it.call(it.getattr(cls, 'start'), [IndentedLine(n)], {})
+                    return bool(it.truth(r)), list(oracle.trace)
+                except Raised:
+                    return None, list(oracle.trace)
+            outs = [res for tr, res in enumerate_paths(run_, 400)]
+            any_true = any(o[0] for o in outs if o[0] is not None)
+            if n >= 4:
+                ok = not any_true
+                why = 'a line indented by %d spaces is accepted' % n
+            else:
+                ok = any_true
+                why = 'a line indented by %d spaces is never accepted' % n
+                if ok and must is not None:
+                    for t, tr in outs:
+                        if t and not any(k == must and v for k, v in tr):
+                            ok, why = False, 'accepted without testing that the text starts with %r' % (must[1],)
+            rep.obligation(rule, ok, {'start': st.short, 'leading_spaces': n, 'accepts': any_true})
+            if not ok:
+                rep.find(rule, st.short, 'indent=%d' % n, '%s: %s (CommonMark: up to three spaces of indentation; four or '
+                         'more make indented code / paragraph text)' % (st.short, why), loc(model.unit_of(st), st.node))
+
+
 def run(ctx):
     rep = ctx.report
     model = ctx.model
+    rule_scanner_indent(ctx, rep)
     rep.rule('R-START-INCL', 'L_match(block pattern) intersect filter is included in the spec language (automata)')
     rep.rule('R-START-ANCHOR', 'block starts apply their pattern with .match')
     rep.rule('R-START-ONLY-IF', 'start returns truthy only if its pattern matched')
